@@ -1,6 +1,6 @@
 (* Corr_convert.v — engine `convert`: utils::convert_cid / convert_multihash over a compiled grid of
    capacity pairs, against Convert.v; C19 oracle on the implementation's outputs. *)
-From BS Require Import Bytes Cid Prefix Hasher Convert.
+From BS Require Export Bytes Cid Prefix Hasher Convert.
 Open Scope N_scope.
 
 Inductive vin := VConvert (cap cap' : N) (c : cid).
